@@ -1,6 +1,7 @@
 package main
 
 import (
+	"crypto/md5"
 	"bufio"
 	"bytes"
 	"errors"
@@ -67,6 +68,8 @@ func (s *Sys) execExportImport(v int64, codec string, seed int64) string {
 	if err := imp.Commit(); err != nil {
 		return "ei(viol:commit-error)"
 	}
+	// the node store the importer wrote (keys with the nonces it assigned, root entry), as a digest
+	layout := fmt.Sprintf("%x", md5.Sum([]byte((&Sys{db: db2}).auditNodes(true))))
 	i2, err := t2.GetImmutable(v)
 	if err != nil {
 		return "ei(viol:imported-version-missing)"
@@ -148,7 +151,7 @@ func (s *Sys) execExportImport(v int64, codec string, seed int64) string {
 	}
 	_ = t1.Close()
 	_ = t3.Close()
-	return "ei(ok)"
+	return "ei(ok;an=" + layout + ")"
 }
 
 // ---- machine "imp": hostile streams ----
@@ -313,8 +316,8 @@ func genImp(r *rand.Rand, tier, id string) Case {
 
 // one large tree: more than one import batch (maxBatchSize = 10000 nodes)
 func genBigImport(r *rand.Rand, tier, id string) Case {
-	c := Case{ID: id, Kind: "m1", Params: []string{"iv=-"}, Cfgs: []string{"cache=1000,fast=true,flush=100000,sync=false,backend=memdb"}}
-	n := 5200
+	c := Case{ID: id, Kind: "m1", Params: []string{"iv=-"}, Cfgs: []string{"cache=1000,fast=false,flush=100000,sync=false,backend=memdb"}}
+	n := 5050
 	for i := 0; i < n; i++ {
 		c.Ops = append(c.Ops, []string{"set", hx([]byte(fmt.Sprintf("key%06d", r.Intn(1<<20)))), hx([]byte(strconv.Itoa(i)))})
 	}
